@@ -392,6 +392,27 @@ Module DacTree.
     apply (dstep_open_nocreat dfs (svu bob 18) [n_h; n_f] 3 0 0 (dtree_hyps bob 18)); [path_ok_tac|reflexivity].
   Qed.
 
+  (* ---- Chown by ordinary users (the former deviation C03-CHOWN-NONROOT: every such call was refused) ------------------- *)
+  (* alice owns /e/q (group 2000): she may give it to her own group, not to bob; bob may pass (-1,-1) on alice's /h/f *)
+  Example chown_owner_group :
+    (fst (chown_gen SlEval dfs (view_of alice 18) (abs_path [n_e; n_q]) (-1) 1000),
+     proj_res Linux (snd (chown_gen SlEval dfs (view_of alice 18) (abs_path [n_e; n_q]) (-1) 1000)))
+    = k_chown true dfs (svu alice 18) (abs_path [n_e; n_q]) (-1) 1000
+    /\ snd (k_chown true dfs (svu alice 18) (abs_path [n_e; n_q]) (-1) 1000) = SOk
+    /\ meta_at (f_heap (fst (k_chown true dfs (svu alice 18) (abs_path [n_e; n_q]) (-1) 1000))) 8 = Some (mk 420 1000 1000)
+    /\ snd (k_chown true dfs (svu alice 18) (abs_path [n_e; n_q]) 1001 (-1)) = SErr EPERM
+    /\ snd (k_chown true dfs (svu bob 18) (abs_path [n_h; n_f]) (-1) (-1)) = SOk.
+  Proof.
+    split; [|repeat split; vm_compute; reflexivity].
+    apply (dstep_chown SlEval dfs (svu alice 18) [n_e; n_q] (-1) 1000 (dtree_hyps alice 18)); [path_ok_tac|reflexivity].
+  Qed.
+
+  Example chown_give_away_refused :
+    (fst (chown_gen SlEval dfs (view_of alice 18) (abs_path [n_e; n_q]) 1001 (-1)),
+     proj_res Linux (snd (chown_gen SlEval dfs (view_of alice 18) (abs_path [n_e; n_q]) 1001 (-1))))
+    = k_chown true dfs (svu alice 18) (abs_path [n_e; n_q]) 1001 (-1).
+  Proof. apply (dstep_chown SlEval dfs (svu alice 18) [n_e; n_q] 1001 (-1) (dtree_hyps alice 18)); [path_ok_tac|reflexivity]. Qed.
+
   (* ---- a covered call at the level of worlds ----------------------------------------------------------------------- *)
   Example world_step_alice_mkdir :
     let c := CMkdir 0 (abs_path ([n_h] ++ [n_n])) 511 in
@@ -444,4 +465,21 @@ Module DacTree.
     /\ snd (impl_run w_alice ahist) = snd (spec_run_phl true sw_alice ahist)
     /\ w_fs (fst (impl_run w_alice ahist)) = sw_fs (fst (spec_run_phl true sw_alice ahist)).
   Proof. vm_compute. repeat split; reflexivity. Qed.
+
+  (* ---- a directory moved into itself.  / is sticky and root's, /t is bob's: alice may write / but owns neither; the
+     answer is EINVAL on both sides, before the sticky bit (EPERM) is looked at, as rename(2) does (in the code the
+     moved directory is also the new parent, whose lock is held: the test of its owner must not be reached) --------- *)
+  Definition itree : heap :=
+    [ NDir [(n_t, 1)] (mk (N.lor MODE_DIR (N.lor MODE_STICKY 511)) 0 0)
+    ; NDir [] (mk (N.lor MODE_DIR 511) 1001 1000) ].
+  Definition ifs : fsys := {| f_heap := itree; f_last_id := 1; f_vols := [] |}.
+  Example rename_into_itself_first :
+    let o := abs_path [n_t] in
+    let p := abs_path ([n_t] ++ [n_g]) in
+    let q := abs_path [n_g] in
+    (fst (rename ifs (view_of alice 18) o p), proj_res Linux (snd (rename ifs (view_of alice 18) o p))) = go_rename ifs (svu alice 18) o p
+    /\ snd (go_rename ifs (svu alice 18) o p) = SErr EINVAL
+    /\ (fst (rename ifs (view_of alice 18) o q), proj_res Linux (snd (rename ifs (view_of alice 18) o q))) = go_rename ifs (svu alice 18) o q
+    /\ snd (go_rename ifs (svu alice 18) o q) = SErr EPERM.
+  Proof. repeat split; vm_compute; reflexivity. Qed.
 End DacTree.
